@@ -24,6 +24,10 @@ impl Queue {
     }
 
     pub(crate) fn send(&self, sig: &Signal) {
+        #[cfg(feature = "verif")]
+        if crate::verif::on_queue_send(self, sig) {
+            return;
+        }
         let sender = self.sender.clone();
         let sig = sig.clone();
         Handle::current().spawn(async move { sender.send(sig).await });
